@@ -185,11 +185,11 @@ theorem legacy_stale_remove_unroutes :
 
 /-- the repaired merge on the same inputs -/
 theorem repaired_on_the_same_inputs :
-    let b1 := (mergeStep false b0 [(kx, ⟨5, 0, []⟩)]).broker
-    let b2 := (mergeStep false b1 [(kx, ⟨10, 7, []⟩)]).broker
-    let b3 := (mergeStep false b2 [(kx, ⟨0, 12, []⟩)]).broker
-    let c1 := (mergeStep false b0 [(ky, ⟨10, 0, []⟩)]).broker
-    let c2 := (mergeStep false c1 [(ky, ⟨0, 7, []⟩)]).broker
+    let b1 := (mergeStep .forward b0 [(kx, ⟨5, 0, []⟩)]).broker
+    let b2 := (mergeStep .forward b1 [(kx, ⟨10, 7, []⟩)]).broker
+    let b3 := (mergeStep .forward b2 [(kx, ⟨0, 12, []⟩)]).broker
+    let c1 := (mergeStep .forward b0 [(ky, ⟨10, 0, []⟩)]).broker
+    let c2 := (mergeStep .forward c1 [(ky, ⟨0, 7, []⟩)]).broker
     counterOf b2 2 [1, 10] = 1 ∧ hasRoute b3.routes [1, 10] 2 = false ∧
     cnt c2.state 2 [1, 20] = 1 ∧ hasRoute c2.routes [1, 20] 2 = true := by decide
 
@@ -200,7 +200,7 @@ def RoutingAfterEveryStep : Prop :=
 /-- finding `C05.offline-local-delete`: garbage collection drops the routes of a peer whose
 entries stay active (the remove it stamps lands on the key (self, conn, ssid)) -/
 theorem offline_refuted :
-    let b1 := (mergeStep false b0 [(kx, ⟨5, 0, []⟩)]).broker
+    let b1 := (mergeStep .forward b0 [(kx, ⟨5, 0, []⟩)]).broker
     let r := offline b1 2 9
     r.2 = ["C05.offline-local-delete"] ∧ cnt r.1.state 2 [1, 10] = 1 ∧ hasRoute r.1.routes [1, 10] 2 = false ∧
     get r.1.state (encKey 1 7 [1, 10]) = ⟨0, 9, []⟩ := by decide
@@ -209,9 +209,9 @@ theorem offline_refuted :
 theorem routing_after_every_step_refuted : ¬ RoutingAfterEveryStep := by
   intro h
   have hb0 : BInv b0 := binv_init 1 (by decide)
-  have hb1 : BInv (mergeStep false b0 [(kx, ⟨5, 0, []⟩)]).broker := by
+  have hb1 : BInv (mergeStep .forward b0 [(kx, ⟨5, 0, []⟩)]).broker := by
     apply binv_mergeOrd _ b0 _ hb0 (nodup_singleton _ _)
-    · simp
+    · exact List.Perm.refl _
     · decide
   have := (h _ hb1 2 9 2 (by decide) [1, 10]).2
   revert this
@@ -220,18 +220,18 @@ theorem routing_after_every_step_refuted : ¬ RoutingAfterEveryStep := by
 /-- finding `C05.online-bypasses-counters`: the peer object is created again by a later update,
 the old entry is routed without being counted, its removal finds no counter: the route stays -/
 theorem online_bypass_refuted :
-    let b1 := (mergeStep false b0 [(kx, ⟨5, 0, []⟩)]).broker
+    let b1 := (mergeStep .forward b0 [(kx, ⟨5, 0, []⟩)]).broker
     let b2 := (offline b1 2 9).1
-    let m3 := mergeStep false b2 [(ky, ⟨11, 0, []⟩)]
-    let m4 := mergeStep false m3.broker [(kx, ⟨0, 12, []⟩)]
+    let m3 := mergeStep .forward b2 [(ky, ⟨11, 0, []⟩)]
+    let m4 := mergeStep .forward m3.broker [(kx, ⟨0, 12, []⟩)]
     m3.flags = ["C05.online-bypasses-counters"] ∧
     cnt m4.broker.state 2 [1, 10] = 0 ∧ hasRoute m4.broker.routes [1, 10] 2 = true := by decide
 
 /-- finding `C05.inactive-peer-transition`: a first subscription processed while the peer
 counts as inactive is counted but never routed, also after the peer is touched again -/
 theorem inactive_transition_refuted :
-    let b1 := (mergeStep false b0 [(kx, ⟨5, 0, []⟩)]).broker
-    let m2 := mergeStep false (expire b1 2) [(ky, ⟨6, 0, []⟩)]
+    let b1 := (mergeStep .forward b0 [(kx, ⟨5, 0, []⟩)]).broker
+    let m2 := mergeStep .forward (expire b1 2) [(ky, ⟨6, 0, []⟩)]
     let b3 := touch m2.broker 2
     m2.flags = ["C05.inactive-peer-transition"] ∧
     counterOf b3 2 [1, 20] = 1 ∧ cnt b3.state 2 [1, 20] = 1 ∧ hasRoute b3.routes [1, 20] 2 = false := by decide
@@ -239,7 +239,7 @@ theorem inactive_transition_refuted :
 /-- finding `C05.offline-deletes-own-key`: the connection ids of two brokers coincide -/
 theorem offline_own_key_refuted :
     let b1 := (localSub b0 7 [1, 10] 3).broker
-    let b2 := (mergeStep false b1 [(kx, ⟨5, 0, []⟩)]).broker
+    let b2 := (mergeStep .forward b1 [(kx, ⟨5, 0, []⟩)]).broker
     let r := offline b2 2 9
     r.2 = ["C05.offline-local-delete", "C05.offline-deletes-own-key"] ∧
     (7, [1, 10]) ∈ r.1.locals ∧ has r.1.state (encKey 1 7 [1, 10]) = false := by decide
@@ -256,10 +256,10 @@ theorem clock_tie_refuted :
 private def σa : Ssid := [1, 10]
 private def demo : List Ev :=
   [.sub 1 7 σa 5, .unsub 1 7 σa 7, .sub 1 7 σa 10,          -- burst on broker 1, coalesced on both links
-   .pick 1 2 1, .deliver 1 2 [3] true false, .deliver 1 2 [] false true,   -- delivered twice, relayed to 3
-   .pick 2 3 1, .deliver 2 3 [] false false,
-   .gossip 3 1, .pick 3 1 0, .deliver 3 1 [2] false false,
-   .sub 3 4 [1, Trie.wildcard] 11, .pick 3 1 3, .pick 3 2 3, .deliver 3 2 [] false false, .deliver 3 1 [] false false]
+   .pick 1 2 1, .deliver 1 2 [3] true .forward, .deliver 1 2 [] false .reverse,   -- delivered twice, relayed to 3
+   .pick 2 3 1, .deliver 2 3 [] false .forward,
+   .gossip 3 1, .pick 3 1 0, .deliver 3 1 [2] false .forward,
+   .sub 3 4 [1, Trie.wildcard] 11, .pick 3 1 3, .pick 3 2 3, .deliver 3 2 [] false .forward, .deliver 3 1 [] false .forward]
 
 example : ((Cluster.init .emitter 3).run demo).2 = [] := by decide
 example : (((Cluster.init .emitter 3).run demo).1.brokers.map (fun b => (b.self, b.routes.map (fun r => (r.1, r.2.1))))) =
